@@ -460,7 +460,7 @@ def coq_tab(tab):
     tg = [f'({i}%nat, {coq_q(lo)}, {coq_q(hi)}, ({coq_q(a)}, {coq_q(s)}))' for i, lo, hi, a, s in tab['tg'] if finite([lo, hi, a, s])]
     tol = [f'({i}%nat, {coq_qlist(v)})' for i, v in tab['tolist'].items() if finite(v)]
     res = [f'({i}%nat, {n}%nat, {g}%nat, {coq_qlist(v)})' for i, n, g, v in tab['resample'] if finite(v)]
-    sel = [f'({i}%nat, {b(k)})' for i, k in tab['select'].items()]
+    sel = [f'({i}%nat, {n}%nat, {b(k)})' for (i, n), k in tab['select'].items()]
     cho = [f'({i}%nat, {k}%nat, {g}%nat, {u.coq()})' for i, k, g, u in tab['choice'] if not u.has_nan]
     cor = [f'({i}%nat, {coq_qlist(fp)}, {coq_list([coq_qlist(r) for r in m])})' for i, fp, m in tab['corr']
            if finite(fp) and all(finite(r) for r in m)]
@@ -888,7 +888,7 @@ class Runner:
                 src = R._resolve(X)
                 idx = next((i for i, c in enumerate(candidates) if c is R.last_gi), None)
                 if src is not None:
-                    R.tab['select'][src.id] = idx
+                    R.tab['select'][(src.id, len(candidates))] = idx
                     R.selected.append((src, idx, candidates))
         ub.select_univariate = su
         undo.append(lambda: setattr(ub, 'select_univariate', orig_su))
@@ -945,7 +945,8 @@ class Runner:
         elif 'loc' in p and math.isfinite(float(p['loc'])):
             lo = float(p['loc'])
             hi = lo + (float(p.get('scale', 1.0)) if math.isfinite(float(p.get('scale', 1.0))) else 1.0)
-        X = np.array([lo - 0.5, lo + 0.25 * (hi - lo), 0.5 * (lo + hi), hi + 0.5] + ([float(c)] if c is not None else []))
+        scalar_c = c is not None and np.ndim(c) == 0
+        X = np.array([lo - 0.5, lo + 0.25 * (hi - lo), 0.5 * (lo + hi), hi + 0.5] + ([float(c)] if scalar_c else []))
         arg = {'cdf': X, 'pdf': X, 'logpdf': X, 'ppf': UNI_PROBES_U, 'sample': n}[kind]
         self.events.clear()
         with warnings.catch_warnings():
@@ -989,6 +990,9 @@ class Runner:
                 ok = bool(np.allclose(np.asarray(out, dtype=float), exp, rtol=1e-9, atol=1e-12))
             return canon, ok
         # degenerate behaviour: decided by VALUE
+        if c is not None and not scalar_c:
+            # GaussianKDE rebuilt from a nested constant dataset: _extract_constant returns dataset[0], a LIST
+            return ('const', kind, jsonable(c)), None
         out = np.asarray(out, dtype=float)
         if kind == 'cdf':
             ok = c is not None and np.array_equal(out, (X >= c).astype(float))
